@@ -10,6 +10,7 @@ ASYNC_NOTE = ("Trusted: TLC 1.8, harness/drivers/asynchb.py (reads bracket, mile
               "from the scheduler's attributes). Metric values are integer-valued floats; exact ties accept both outcomes. "
               "Bounds: <= 4 trials, <= 3 concurrently running, <= 3 rung levels in exhaustive runs.")
 CLAIMED = {
+ "C17": ("ResultsLog.tla: monitor over handed results, delivered results (with decision), the stored table, its read-back, the two best-configuration reports and the running statistics, with IEEE semantics for NaN (RowPerDelivered, ReadBackEqual, BestIsArgOpt, StatsMatch). ResultsLog_MC feeds a transcription of MetricsStatistics.add / print_best_metric_found with every sequence of <= 5-6 handed results over {0,1,2,NaN}, both modes. Binding: the TLC-generated TunerLoop schedules are executed by the real Tuner.run with a real StoreResultsCallback (update interval 0 and infinity), results.csv.zip is read back with pandas, Tuner.best_config() and load_experiment(...).best_config() are called, TuningStatus statistics are read, and the resulting trace is judged by TLC in ResultsLog_Trace.", "5.1, 6 C17", "Trusted: TLC 1.8, harness/props/c17.py and the scripted collaborators of harness/drivers/tunerloop.py. Integer-valued metrics and NaN; float-text fidelity beyond that is not explored.", "ResultsLog"),
  "C18": ("ReportChannel.tla: token-level writer (report = TAG LB payload RB NL, noise = any tokens without TAG, rejected report = nothing) and the transcription of the reader's regular expression; TLC checks ExtractedEqualsReported and CounterStrictlyIncreasing for every stream of <= 3-4 chunks over the 7-token alphabet (~600k streams). Binding: TLC-generated chunk sequences are concretised (tokens -> characters, payloads inside real dictionaries with nested lists/dicts, NaN/inf, numpy scalars, braces/quotes/newlines/unicode/the tag itself, bad reports inserted) and pushed through the real Reporter and retrieve(); the token abstraction of the captured stdout and what retrieve() returned are judged by TLC in ReportChannel_Trace.", "5.7, 6 C18", "Trusted: TLC 1.8, harness/props/c18.py (tokenizer, concretisation, payload comparison after the numpy -> number map). The spec decides framing, order, exactly-once, counters, rejection; JSON value fidelity is compared by the driver and handed to the spec as equality bits.", "ReportChannel"),
  "C19": ("Pareto.tla defines dominance, the Pareto set, the layer decomposition, valid non-dominated sorts (every index once, earlier layers first, truncation by whole layers) and the set of decisions MOASHA may take (rank of the new element under some valid sort against 1/rf). Pareto_MC enumerates every point set of 2-5 points in small grids (definitional ASSUMEs) and emits (X, mask, layers) rows that are replayed into the real pareto_efficient; every real call of pareto_efficient / nondominated_sort (all dims, max_items) and every real MOASHA decision along TLC-generated report schedules (1-2 brackets, per-metric modes, rf 2/3) is judged by TLC in Pareto_Trace.", "5.6, 6 C19", "Trusted: TLC 1.8, harness/props/c19.py (reads the recorded vectors of the rung a report reaches from the scheduler). Integer-valued objectives; the epsilon-net order inside a layer is not constrained.", "Pareto"),
  "C10": ("SimBackend.tla: event heap, simulated clock, resume offsets and monotonicity repair transcribed; TLC explores all sequences of <= 8-11 back-end calls (start, fetch, pause, stop, resume, sleep) for tables with non-monotone elapsed columns, 0 and non-0 delays, checkpointing and max_resource_attr on/off, fixed and drawn seeds under ClockMonotone, ResultsFromTable, LevelsConsecutive, StampFormula, WaitChargedOnce, NoEventAfterStop; TLC call sequences are issued to the real UserBlackboxBackend over a BlackboxTabular built from the same table and every returned result (level, metric, time stamp in micro-seconds) and the clock after each call is validated by TLC against SimBackend_Trace.", "5.2, 6 C10", "Trusted: TLC 1.8, harness/drivers/simbackend.py (frozen real-time clock, tick projection). Dyadic delays / elapsed times; the table elapsed time is taken after the documented >= 0.01 s monotonicity repair. BlackboxRepositoryBackend and surrogates not run.", "SimBackend"),
